@@ -837,7 +837,9 @@ class Walker:
             return ("tuple", tuple(self.ev(x, env) for x in e.elts))
         if isinstance(e, ast.List):
             self._site += 1
-            return ("alloc", "list", tuple(self.ev(x, env) for x in e.elts), (), self._site)
+            t = ("alloc", "list", tuple(self.ev(x, env) for x in e.elts), (), self._site)
+            self.emit("call", e, target=("builtin", "list"), value=t, name="list-literal", args=t[2])
+            return t
         if isinstance(e, ast.Starred):
             return ("star", self.ev(e.value, env))
         if isinstance(e, ast.Dict):
